@@ -189,3 +189,5 @@ mut("rwlock_scoped_read_exclusive", "src/rwlock/rwlock.rs",
 mut("retry_write_counter_not_bumped", "src/collection/retry.rs", "\t\t\t\t\t\tif lock.raw_try_write() {\n\t\t\t\t\t\t\tlocked.set(locked.get() + 1);",
     "\t\t\t\t\t\tif lock.raw_try_write() {\n\t\t\t\t\t\t\tlocked.set(locked.get() + 0);", [("C12", "Q4"), ("C05", "Q4")],
     "the unwind handler releases a shorter prefix: more locks leak after a panic")
+mut("boxed_poison_forwards_nothing", "src/collection/boxed.rs", "\t\tfor lock in &self.locks {\n\t\t\tlock.poison();\n\t\t}", "\t\tfor lock in &self.locks {\n\t\t\tlet _ = lock;\n\t\t}",
+    [("C01", "E2")], "mutgen survivor: a collection's poison() that kills nothing (its leaves stay usable after the recovery code gave up on them)")
